@@ -322,7 +322,7 @@ func (g *gen) e2eCaseHint(id int, hint *caseHint) *e2eCase {
 		}
 		hint.build(c)
 	}
-	if r.Chance(2) {
+	if r.Chance(2) && c.family != "big" {
 		c.badParam = true
 		c.outParam = append(c.outParam, "nosuchparam=1")
 	}
@@ -381,7 +381,11 @@ func (g *gen) runCase(c *e2eCase) {
 	for _, p := range c.outParam {
 		args = append(args, "--out-param", p)
 	}
-	ctx, cancel := context.WithTimeout(context.Background(), 30*time.Second)
+	limit := 30 * time.Second
+	if c.family == "big" {
+		limit = 150 * time.Second // megabytes of input; the machine is shared
+	}
+	ctx, cancel := context.WithTimeout(context.Background(), limit)
 	defer cancel()
 	cmd := exec.CommandContext(ctx, g.bin, args...)
 	cmd.Dir = dir
@@ -477,7 +481,7 @@ func refDecode(cti string, body []byte, base string) (qs []rdf.Quad, err error) 
 	select {
 	case r := <-ch:
 		return r.qs, r.err
-	case <-time.After(20 * time.Second):
+	case <-time.After(time.Duration(20+len(body)/20000) * time.Second): // 20 s + 50 s per MB (family big)
 		return nil, fmt.Errorf("reference decoder timed out")
 	}
 }
@@ -1079,7 +1083,7 @@ func (g *gen) knownOrViolation(predicate, detail, class string) verdict {
 
 func (g *gen) evaluate(c *e2eCase) verdict {
 	if c.timedOut {
-		return verdict{"violation", "", "rdfkit pipe did not finish within 30 s: " + c.describe(), "timeout"}
+		return verdict{"violation", "", "rdfkit pipe did not finish within its time limit (30 s; 150 s for the large documents): " + c.describe(), "timeout"}
 	}
 	if strings.HasPrefix(c.predDec, "panic:") || strings.HasPrefix(c.predEnc, "panic:") {
 		return verdict{"violation", "", "the registry code panics when called in-process (" + c.predDec + " / " + c.predEnc + "): " + c.describe(), "registry-panic"}
